@@ -122,11 +122,14 @@ Qed.
 Lemma nth_last_app {A} (l : list A) (x d : A) : nth (length l) (l ++ [x]) d = x.
 Proof. rewrite app_nth2 by lia. rewrite Nat.sub_diag. reflexivity. Qed.
 
+Lemma bytes_eqb_refl l : bytes_eqb l l = true.
+Proof. induction l as [|a l IH]; [reflexivity|]. cbn [bytes_eqb]. rewrite Z.eqb_refl, IH. reflexivity. Qed.
+
 Lemma isSameAsPrevious_after_push q p : has_payload p = true -> isSameAsPrevious (q ++ [p]) p = true.
 Proof.
   intros H. unfold isSameAsPrevious. rewrite app_length. cbn [length].
   replace (Z.to_nat (Z.of_nat (length q + 1) - 1)) with (length q) by lia.
-  rewrite nth_last_app. unfold has_payload in H. rewrite H, Z.eqb_refl.
+  rewrite nth_last_app. unfold has_payload in H. rewrite H, Z.eqb_refl, Bool.eqb_reflx, bytes_eqb_refl.
   destruct (Z.of_nat (length q + 1) >? 0) eqn:E; [reflexivity|lia].
 Qed.
 
